@@ -61,6 +61,8 @@ def mats_expr(kind):
         return "SymOf(%s)" % ent(RE4)
     if kind == "3x3herm":
         return "HermOf(%s, %s)" % (ent([(1, 0), (2, 0), (3, 0)]), ent([(0, 0), (1, 0), (0, 1), (1, -1)]))
+    if kind == "3x3hermindef":
+        return "HermOf(%s, %s)" % (ent([(-1, 0), (0, 0), (2, 0)]), ent([(1, 0), (0, 1), (1, -1)]))
     if kind == "3x3bin":
         return "MatsOf(3, %s)" % ent([(0, 0), (1, 0)])
     if kind == "curated":
@@ -243,7 +245,7 @@ def run(chk, replay=None):
     chk.assumptions += ["a complex right-hand side for a real *sparse* matrix is outside the admissible inputs of the SuperLU-based components (SolverSparseLU and the SOR / ILU preconditioners); LinSolve documents this limitation",
                         "optional back-ends (Pardiso, CHOLMOD, CVXOPT) are not installed", "behaviour as the condition number grows is not decided",
                         "[O] CG with geometric multigrid / initial guess: residual of the requested system <= 1e-6"]
-    kinds = ["2x2real", "2x2cx12" if thorough else "2x2cx6", "3x3sym4" if thorough else "3x3sym3", "3x3herm", "curated"] + (["3x3bin"] if thorough else [])
+    kinds = ["2x2real", "2x2cx12" if thorough else "2x2cx6", "3x3sym4" if thorough else "3x3sym3", "3x3herm", "3x3hermindef", "curated"] + (["3x3bin"] if thorough else [])
     for k in kinds:
         name, mod, cfg = model(k)
         chk.tlc_must_hold(name, cfg, label="Solvers " + k, extra_modules={name: mod})
